@@ -8,6 +8,7 @@ import random
 
 from .. import core, tlc
 from .. import codec_engine as ce
+from .. import scenarios as S
 
 PORT_ALIASES = {1: ["bp", "backplane", "1"], 2: ["enet", "2", "dnet", "cnet", "dhrio-a", "dh485-a"], 3: ["dhrio-b", "dh485-b", "3"]}
 SEPS = ["/", "\\", ","]
@@ -141,6 +142,53 @@ def gen(rec, rnd, thorough):
         rec.conn("/".join(toks), False, "token-corruption")
 
 
+def session_family(rnd, n):
+    """The route / host / port as the TARGET sees them: real drivers connect with path strings from the grammar."""
+    from ..projgen import small_project
+    from . import c18
+    scs = []
+    for i in range(n):
+        kind = ["cip", "logix", "slc"][i % 3]
+        host = rnd.choice(["10.20.30.100", "192.168.1.1", "plc-1.example.com", "1.2.3.4"])
+        port = rnd.choice([None, None, 44818, 2222, 1, 65534])
+        nh = rnd.choice([0, 1, 1, 2, 3]) if kind == "cip" else rnd.choice([0, 1, 2, 2, 3])
+        hops = [(rnd.choice([1, 2, 3]), rnd.choice([0, 1, 5, 17, 255, "10.11.12.13", "1.2.3.4"])) for _ in range(nh)]
+        s = host + (":%d" % port if port else "")
+        if kind != "cip" and rnd.random() < 0.4:                     # driver shortcuts: bare address / address + slot
+            slot = rnd.choice([None, 0, 1, 7])
+            s += "" if slot is None else rnd.choice(SEPS) + str(slot)
+            route = [S.port_seg("bp", slot or 0)]
+        else:
+            if kind != "cip" and nh == 0:
+                route = [S.port_seg("bp", 0)]
+            else:
+                for p, l in hops:
+                    s += rnd.choice(SEPS) + rnd.choice(PORT_ALIASES[p]) + rnd.choice(SEPS) + str(l)
+                route = [S.port_seg(p, l) for p, l in hops]
+        sc = {"id": "ps%d" % i, "family": "path-session-" + kind, "target": {"policy": rnd.choice(["LargeOK", "LargeRefused"]), "identity": S.identity()},
+              "driver": {"kind": kind, "path": s, "route": route, "host": host, "port": port or 44818}}
+        if kind == "cip":
+            g, scr = S.generic_call(rnd, route, mode="connected", script={"status": 0, "ext": [], "data": [1, 2]})
+            g2, scr2 = S.generic_call(rnd, route, mode="ucsend", script={"status": 0, "ext": [], "data": [3]})
+            g2["kwargs"]["route_path"] = True
+            g2["intent"].update({"hasroute": 1, "routesegs": route})
+            sc["calls"] = [{"api": "open"}, g, g2, {"api": "close"}]
+            sc["target"]["script"] = [scr, scr2]
+        elif kind == "logix":
+            sc["project"], sc["mem"] = small_project(rnd)
+            sc["driver"]["init_tags"] = False
+            sc["calls"] = [{"api": "open"}, {"api": "get_plc_name"}, {"api": "get_plc_info"}, {"api": "close"}]
+        else:
+            tab = c18.table(rnd)
+            a, it = c18.addr(rnd, tab)
+            while not it["valid"]:
+                a, it = c18.addr(rnd, tab)
+            sc["slc"] = tab
+            sc["calls"] = [{"api": "open"}, {"api": "read", "tags": [a], "intent": {"items": [it]}}, {"api": "close"}]
+        scs.append(sc)
+    return scs
+
+
 def run(ctx):
     thorough = ctx.tier == "thorough"
     cfg = "ConnPathModel_full.cfg" if thorough else "ConnPathModel.cfg"
@@ -150,7 +198,12 @@ def run(ctx):
     rec = Rec()
     gen(rec, rnd, thorough)
     fails = ce.judge(ctx, rec, "conn", module="TracePath", shard_events=1500)
-    ctx.traces = ctx.evaluations = len(rec.events)
+    from .. import scenarios as S_, session_engine as se
+    scs = session_family(rnd, 600 if thorough else 90)
+    results = se.run_all(ctx, scs, "c15s")
+    se.report(ctx, results, lambda r, clause, ev: {"label": r["sc"]["family"], "outcome": ev.get("k", "")})
+    ctx.extra["path_sessions"] = len(scs)
+    ctx.traces = ctx.evaluations = len(rec.events) + len(scs)
     for m in rec.meta:
         ctx.nontrivial.add(json.dumps([m["s"], m["auto"]]))
     ctx.rule = ("strings enumerated from the path grammar (5 hosts, optional TCP port incl. 1 / 65534, 0-4 hops, every port "
